@@ -1,7 +1,7 @@
 #!/bin/bash
 # Runs every check of a tier once and prints exit status and wall time per check.
 tier="${1:-quick}"
-cd /verif || exit 2
+cd "$(dirname "$0")" || exit 2
 rc=0
 for id in $(python3 -c "import json;print(' '.join(c['property_id'] for c in json.load(open('MANIFEST.json'))['checks']))"); do
 	start=$(date +%s)
